@@ -258,6 +258,19 @@ func dtStrCodepoints(rnd *rt.Rand, class string, n int) []rune {
 			if i%4 == 3 {
 				c = rune(rnd.Range(0x20, 0xffff))
 			}
+		case "special":
+			// characters with a meaning to encoders and decoders: byte order
+			// marks (U+FEFF and its byte-swapped twin U+FFFE) at the start
+			// and inside, the replacement character, the last BMP code
+			// points, line / paragraph separators
+			sp := []rune{0xfeff, 0xfffe, 0xfffd, 0xffff, 0x2028, 0x2029, 0x00a0, 0x200b, 0x0085}
+			c = sp[rnd.Intn(len(sp))]
+			if i == 0 {
+				c = []rune{0xfeff, 0xfffe}[rnd.Intn(2)]
+			}
+			if i%3 == 1 {
+				c = rune(rnd.Range(0x20, 0x7e))
+			}
 		case "mixed":
 			switch rnd.Intn(5) {
 			case 0:
@@ -615,7 +628,7 @@ func dtBuildWork(c *Ctx, visit dtVisit) []dtWork {
 					visit(acc, vr, &dtVal{K: dkBytes, B: b}, true)
 				case vr.Role == "utf16":
 					// n counts code points here
-					for _, cl := range []string{"ascii", "ascii-nul", "latin1", "bmp", "supp", "mixed"} {
+					for _, cl := range []string{"ascii", "ascii-nul", "latin1", "bmp", "supp", "mixed", "special"} {
 						if n > 70000 {
 							continue
 						}
